@@ -756,3 +756,116 @@ def run_c15(tier):
     check.extra["with_relations"] = sum(1 for v in verdicts if v.get("nrel", 0) > 0)
     check.extra["cut_through_marked_bond"] = sum(1 for r in recs if r.get("marked_cuts"))
     return check.finish()
+
+
+# ----------------------------------------------------------------------------------------------
+# C20: faults below the base graph (any level of a multi-level string)
+# ----------------------------------------------------------------------------------------------
+def deep_fault_records(check, tier):
+    """(i) a fragment definition removed at a random level of a layered string -> Resolve!MissingFragment at that level;
+       (ii) faults inside fragment definitions (unclosed ring index / duplicate ring bond in a coarse fragment,
+            annotation faults on coarse nodes and atoms) -> FragTextTrace mode fragfault."""
+    from .. import molgen
+    rng = common.rng("c20deep")
+    n = 40 if tier == "quick" else 600
+    mols = [(smi, molgen.read_reference(smi)) for smi in molgen.CATALOGUE]
+    mols = [(s, g) for s, g in mols if g.number_of_nodes() >= 4]
+    step_recs, frag_recs = [], []
+    tries = 0
+    while len(step_recs) < n and tries < 20 * n:
+        tries += 1
+        smi, g = rng.choice(mols)
+        lay = molgen.layered_config(g, rng, rng.randint(1, 2))
+        if lay is None or lay["nlevels"] == 0:
+            continue
+        all_frags = [list(f) for f in lay["coarse_levels"]] + [list(lay["atomistic"]["frags"])]
+        lv = rng.randrange(len(all_frags))
+        if len(all_frags[lv]) < 1:
+            continue
+        victim = rng.randrange(len(all_frags[lv]))
+        removed = all_frags[lv][victim][0]
+        all_frags[lv] = [f for i, f in enumerate(all_frags[lv]) if i != victim]
+        if not all_frags[lv]:
+            continue
+        blocks = [frag_block_text(f) for f in all_frags]
+        text = render.render_graph_tokens(lay["top"]) + "." + ".".join(blocks)
+        obs = project.run_resolve(text, last_all_atom=True, legacy=True)
+        prev_fine = None
+        for i, frags in enumerate(all_frags):
+            step = obs["steps"][i] if i < len(obs["steps"]) else None
+            last = i == len(all_frags) - 1
+            rec = {"mode": "resolve", "text": text, "level": i, "smi": smi, "removed": removed, "fault_level": lv,
+                   "basekind": "tokens" if i == 0 else "graph", "base": lay["top"] if i == 0 else [],
+                   "basegraph": {"names": [], "edges": []} if i == 0 else basegraph_of(prev_fine),
+                   "frags": frags, "fragcoarse": not last, "legacy": True, "allAtom": last,
+                   "obs": slim_obs(step, "ok" if step is not None else obs["outcome"])}
+            step_recs.append(rec)
+            if step is None:
+                break
+            prev_fine = step["fine"]
+    # faults inside fragment definitions
+    bad_anns = [[{"k": "w", "v": "ab=c", "eq": 2}], [{"k": "", "v": "1", "eq": 0}, {"k": "", "v": "R", "eq": 0}, {"k": "", "v": "2", "eq": 0}],
+                [{"k": "w", "v": "abc", "eq": 1}], [{"k": "", "v": "x1", "eq": 0}], [{"k": "w", "v": "1", "eq": 1}, {"k": "", "v": "0.5", "eq": 0}]]
+    for _ in range(n * 2):
+        smi, g = rng.choice(mols)
+        lay = molgen.layered_config(g, rng, 1)
+        if lay is None or lay["nlevels"] == 0:
+            continue
+        for frags, coarse in ((lay["coarse_levels"][0], True), (lay["atomistic"]["frags"], False)):
+            name, toks = rng.choice(frags)
+            toks = [dict(t) for t in toks]
+            atoms = [i for i, t in enumerate(toks) if t["k"] == "A"]
+            kind = rng.choice(["ann", "ann", "dangling"] if coarse else ["ann"])
+            i = rng.choice(atoms)
+            if kind == "ann":
+                t = toks[i]
+                if not t["v"].startswith("["):
+                    t["v"] = "[" + t["v"] + "]"
+                    t["hc"] = 0
+                t["a"] = [dict(e) for e in rng.choice(bad_anns)]
+            else:
+                used = {t["n"] for t in toks if t["k"] == "R"}
+                m = [x for x in range(1, 10) if x not in used][0]
+                j = i + 1
+                while j < len(toks) and toks[j]["k"] == "R":
+                    j += 1
+                toks = toks[:j] + [render.ftok("R", "d", m)] + toks[j:]
+            text = render.render_fragment_tokens(toks)
+            from cgsmiles.read_fragments import read_fragments
+            try:
+                with project.quiet():
+                    read_fragments("{#F=" + text + "}", all_atom=not coarse)
+                out = "ok"
+            except Exception as exc:
+                out = project.outcome_of(exc)
+            frag_recs.append({"mode": "fragfault", "coarse": coarse, "toks": toks, "text": text, "obs": {"outcome": out}})
+    return step_recs, frag_recs
+
+
+def run_c20_deep(check, tier):
+    step_recs, frag_recs = deep_fault_records(check, tier)
+    verdicts = validate_with(check, step_recs)
+    judge(check, "C20", step_recs, verdicts, only=lambda r, v: v.get("expected") != "ok", nontrivial=lambda r, v: True)
+    check.extra["missing_fragment_at_level"] = {str(l): sum(1 for r, v in zip(step_recs, verdicts)
+                                                          if v.get("dom") and v.get("expected") != "ok" and r["level"] == l) for l in range(4)}
+    fv, stats = tlc.validate("FragTextTrace", [{k: r[k] for k in ("mode", "coarse", "toks", "obs")} for r in frag_recs])
+    check.add_tv(stats)
+    kinds = {}
+    for rec, v in zip(frag_recs, fv):
+        check.evaluations += 1
+        if not v.get("dom"):
+            check.skipped += 1
+            continue
+        if v["expected"] == "ok":
+            continue
+        check.traces += 1
+        check.nontrivial.add("frag:" + rec["text"])
+        kinds[v["fault"]] = kinds.get(v["fault"], 0) + 1
+        for c in ("C20_Raises", "C20_NoGraph"):
+            check.count_clause(c, v[c])
+        failed = [c for c in ("C20_Raises", "C20_NoGraph") if not v[c]]
+        if failed:
+            check.violation(failed[0], {"key": "frag:" + rec["text"], "site": "coarse" if rec["coarse"] else "atom",
+                                        "entries": [e for t in rec["toks"] if t["k"] == "A" for e in t["a"]],
+                                        "text": rec["text"], "obs": rec["obs"]}, v)
+    check.extra["fragment_level_faults_by_kind"] = kinds
